@@ -441,6 +441,8 @@ Definition codes_post (c : pcfg) (s0 : pstate) (r : res (bool * pstate)) : Prop 
 Lemma mu_nonneg c s : inv c s -> 0 <= mu c s.
 Proof. intros [(A1 & _) Hbc]. unfold mu. lia. Qed.
 
+Opaque decode bits copy_back.
+
 Lemma codes_step_ok c lc dc Bl s : cfg_ok c -> huff_ok lc Bl -> huff_ok dc 30 -> inv c s ->
   codes_post c s (codes_step c lc dc s).
 Proof.
@@ -511,11 +513,14 @@ Proof.
   apply (run_loop_inv (fun s1 => lift_step (codes_step c lc dc s1) (fun s2 => s2))
            (fun s1 => inv c s1 /\ mu c s1 <= mu c s) (step_post c s) (mu c)).
   - intros s1 [Hi1 Hm1]. pose proof (codes_step_ok c lc dc Bl s1 Hc Hlc Hdc Hi1) as H. unfold codes_post in H.
-    unfold lift_step. destruct (codes_step c lc dc s1) as [[[|] s2]| | |]; cbn [step_post]; try tauto; try lia.
-    repeat split; try tauto; lia.
+    unfold lift_step. destruct (codes_step c lc dc s1) as [[[|] s2]| | |]; cbn [step_post]; try tauto.
+    + destruct H as [H1 H2]. split; [exact H1|lia].
+    + destruct H as [H1 H2]. split; [split; [exact H1|lia]|lia].
   - split; [exact Hi|lia].
   - pose proof (mu_nonneg c s Hi). destruct Hi as [(A1 & _) Hbc]. unfold mu in *. lia.
 Qed.
+
+Opaque codes construct.
 
 (* ---- fixed ----------------------------------------------------------------------------------------- *)
 Lemma Forall_repeat {P : Z -> Prop} x k : P x -> Forall P (repeat x k).
@@ -535,13 +540,11 @@ Proof.
   split.
   - destruct (construct_ok fixed_lengths 0 288 ltac:(lia) ltac:(lia)) with (h := mkH (repeat 0 16) (repeat 0 288)) (B := 288)
       as (e & h & E & Hh & _); try (cbn; lia).
-    + reflexivity.
     + unfold lens_at. apply Forall_firstn, Forall_skipn, fixed_lengths_range.
     + cbn [h_symbol]. apply Forall_repeat. lia.
     + exists e, h. split; [exact E|exact Hh].
   - destruct (construct_ok fixed_dlengths 0 30 ltac:(lia) ltac:(lia)) with (h := mkH (repeat 0 16) (repeat 0 30)) (B := 30)
       as (e & h & E & Hh & _); try (cbn; lia).
-    + reflexivity.
     + unfold lens_at, fixed_dlengths. apply Forall_firstn, Forall_skipn. apply Forall_app; split; [apply Forall_repeat; lia|].
       apply Forall_skipn, fixed_lengths_range.
     + cbn [h_symbol]. apply Forall_repeat. lia.
@@ -553,3 +556,170 @@ Proof.
   intros Hc Hi. unfold fixed. destruct fixed_tables_ok as [(e1 & h1 & E1 & H1) (e2 & h2 & E2 & H2)].
   rewrite E1, E2. cbn [bind]. eapply codes_ok; eauto.
 Qed.
+
+(* ---- dynamic --------------------------------------------------------------------------------------- *)
+Definition lens_ok (l : list Z) : Prop := len l = 316 /\ Forall (fun v => 0 <= v <= 15) l.
+
+Definition rl_post (c : pcfg) (s0 : pstate) (r : res (pstate * list Z)) : Prop :=
+  match r with
+  | Ok (s', l') => inv c s' /\ mu c s' <= mu c s0 /\ lens_ok l'
+  | Err e => e <> 0
+  | Oob => False
+  | NoFuel => False
+  end.
+
+Lemma order_range i : 0 <= i < 19 -> 0 <= nth (Z.to_nat i) order 0 <= 18.
+Proof.
+  intros H. assert (F : Forall (fun v => 0 <= v <= 18) order) by (unfold order; repeat constructor; lia).
+  apply (Forall_nth_Z order i F). exact H.
+Qed.
+
+Lemma lens_ok_upd l i v : lens_ok l -> 0 <= i < 316 -> 0 <= v <= 15 -> lens_ok (upd l i v).
+Proof. intros [Hl Hf] Hi Hv. split; [rewrite len_upd by lia; exact Hl|apply Forall_upd; auto]. Qed.
+
+Lemma read_cl_ok c : cfg_ok c -> forall k index s lengths, inv c s -> 0 <= index -> index + Z.of_nat k <= 19 ->
+  lens_ok lengths -> rl_post c s (read_cl k index c s lengths).
+Proof.
+  intros Hc. induction k as [|k IH]; intros index s lengths Hi Hidx Hk Hl.
+  - cbn [read_cl rl_post]. repeat split; auto; try lia; apply Hl.
+  - cbn [read_cl]. pose proof (bits_ok c s 3 Hc Hi ltac:(lia)) as Hb. unfold bits_post in Hb.
+    destruct (bits c s 3) as [[v s1]| | |]; cbn [bind rl_post]; auto; [|lia].
+    destruct Hb as (Hi1 & Hv & Hm1 & _). change (2 ^ 3) with 8 in Hv.
+    rewrite (rd_ok order) by (change (len order) with 19; lia). cbn [bind].
+    pose proof (order_range index ltac:(lia)) as Ho.
+    rewrite wr_ok by (destruct Hl as [Hl _]; lia). cbn [bind].
+    specialize (IH (index + 1) s1 (upd lengths (nth (Z.to_nat index) order 0) v) Hi1 ltac:(lia) ltac:(lia)
+                   (lens_ok_upd _ _ _ Hl ltac:(lia) ltac:(lia))).
+    unfold rl_post in *. destruct (read_cl k (index + 1) c s1 _) as [[s2 l2]| | |]; auto.
+    destruct IH as (A & B' & C). repeat split; auto; try lia; apply C.
+Qed.
+
+Lemma zero_cl_ok : forall k index lengths, 0 <= index -> index + Z.of_nat k <= 19 -> lens_ok lengths ->
+  exists l', zero_cl k index lengths = Ok l' /\ lens_ok l'.
+Proof.
+  induction k as [|k IH]; intros index lengths Hidx Hk Hl.
+  - exists lengths. cbn [zero_cl]. auto.
+  - cbn [zero_cl]. rewrite (rd_ok order) by (change (len order) with 19; lia). cbn [bind].
+    pose proof (order_range index ltac:(lia)) as Ho.
+    rewrite wr_ok by (destruct Hl as [Hl _]; lia). cbn [bind].
+    apply IH; try lia. apply lens_ok_upd; auto; lia.
+Qed.
+
+Lemma repeat_len_ok v : 0 <= v <= 15 -> forall k index lengths, 0 <= index -> index + Z.of_nat k <= 316 ->
+  lens_ok lengths -> exists l', repeat_len k index v lengths = Ok l' /\ lens_ok l'.
+Proof.
+  intros Hv. induction k as [|k IH]; intros index lengths Hidx Hk Hl.
+  - exists lengths. cbn [repeat_len]. auto.
+  - cbn [repeat_len]. rewrite wr_ok by (destruct Hl as [Hl _]; lia). cbn [bind].
+    apply IH; try lia. apply lens_ok_upd; auto; lia.
+Qed.
+
+Lemma read_lengths_ok c lc s0 : cfg_ok c -> huff_ok lc 286 ->
+  forall fuel s lengths index nlen ndist, inv c s -> mu c s <= mu c s0 -> lens_ok lengths ->
+  0 <= index -> nlen + ndist <= 316 -> nlen + ndist - index < Z.of_nat fuel ->
+  rl_post c s0 (read_lengths fuel c lc s lengths index nlen ndist).
+Proof.
+  intros Hc Hlc. induction fuel as [|fuel IH]; intros s lengths index nlen ndist Hi Hm Hl Hidx Hn Hfuel.
+  - cbn [read_lengths]. destruct (Z.ltb_spec index (nlen + ndist)); [lia|]. cbn [rl_post]. auto.
+  - cbn [read_lengths]. destruct (Z.ltb_spec index (nlen + ndist)) as [Hlt|Hge]; [|cbn [rl_post]; auto].
+    pose proof (decode_ok c lc 286 s Hc Hlc Hi) as Hd. unfold dec_post in Hd.
+    destruct (decode c lc s) as [[symbol s1]| | |]; cbn [bind rl_post]; auto.
+    destruct Hd as (Hi1 & Hsym & Hm1 & _).
+    destruct (Z.ltb_spec symbol 0); [lia|].
+    destruct (Z.ltb_spec symbol 16) as [Hs16|Hrep].
+    + rewrite wr_ok by (destruct Hl as [Hl _]; lia). cbn [bind].
+      apply IH; auto; try lia. apply lens_ok_upd; auto; lia.
+    + (* repeat instruction: the value to repeat, the count, the state after reading the extra bits *)
+      assert (Hrep_post : forall (r : res (Z * Z * pstate)),
+                (match r with
+                 | Ok (ln, rep, s2) => inv c s2 /\ mu c s2 <= mu c s1 /\ 0 <= ln <= 15 /\ 3 <= rep <= 138
+                 | Err e => e <> 0 | Oob => False | NoFuel => False end) ->
+                rl_post c s0
+                  ('(ln, symbol0, s2) <- r ;;
+                   if nlen + ndist <? index + symbol0 then Err (-6) else
+                   l1 <- repeat_len (Z.to_nat symbol0) index ln lengths ;;
+                   read_lengths fuel c lc s2 l1 (index + symbol0) nlen ndist)).
+      { intros [[[ln rep] s2]| | |]; cbn [bind rl_post]; auto. intros (Hi2 & Hm2 & Hln & Hrp).
+        destruct (Z.ltb_spec (nlen + ndist) (index + rep)); [cbn [rl_post]; lia|].
+        destruct (repeat_len_ok ln Hln (Z.to_nat rep) index lengths Hidx ltac:(lia) Hl) as (l1 & E1 & Hl1).
+        rewrite E1. cbn [bind]. apply IH; auto; lia. }
+      apply Hrep_post.
+      destruct (Z.eqb_spec symbol 16).
+      * destruct (Z.eqb_spec index 0); [lia|].
+        rewrite rd_ok by (destruct Hl as [Hl _]; lia). cbn [bind].
+        pose proof (bits_ok c s1 2 Hc Hi1 ltac:(lia)) as Hb. unfold bits_post in Hb.
+        destruct (bits c s1 2) as [[v s2]| | |]; cbn [bind]; auto; [|lia].
+        destruct Hb as (Hi2 & Hv & Hm2 & _). change (2 ^ 2) with 4 in Hv.
+        repeat split; auto; try lia; apply (Forall_nth_Z lengths (index - 1) (proj2 Hl)); destruct Hl as [Hl _]; lia.
+      * destruct (Z.eqb_spec symbol 17).
+        -- pose proof (bits_ok c s1 3 Hc Hi1 ltac:(lia)) as Hb. unfold bits_post in Hb.
+           destruct (bits c s1 3) as [[v s2]| | |]; cbn [bind]; auto; [|lia].
+           destruct Hb as (Hi2 & Hv & Hm2 & _). change (2 ^ 3) with 8 in Hv. repeat split; auto; lia.
+        -- pose proof (bits_ok c s1 7 Hc Hi1 ltac:(lia)) as Hb. unfold bits_post in Hb.
+           destruct (bits c s1 7) as [[v s2]| | |]; cbn [bind]; auto; [|lia].
+           destruct Hb as (Hi2 & Hv & Hm2 & _). change (2 ^ 7) with 128 in Hv. repeat split; auto; lia.
+Qed.
+
+Opaque read_cl zero_cl read_lengths.
+
+Lemma lens_at_range lengths loff n : lens_ok lengths -> Forall (fun v => 0 <= v <= 15) (lens_at lengths loff n).
+Proof. intros [_ Hf]. unfold lens_at. apply Forall_firstn, Forall_skipn, Hf. Qed.
+
+Theorem dynamic_ok c s : cfg_ok c -> inv c s -> step_post c s (dynamic c s).
+Proof.
+  intros Hc Hi. unfold dynamic.
+  pose proof (bits_ok c s 5 Hc Hi ltac:(lia)) as Hb1. unfold bits_post in Hb1.
+  destruct (bits c s 5) as [[v1 s1]| | |]; cbn [bind step_post]; auto; [|lia].
+  destruct Hb1 as (Hi1 & Hv1 & Hm1 & _). change (2 ^ 5) with 32 in Hv1.
+  pose proof (bits_ok c s1 5 Hc Hi1 ltac:(lia)) as Hb2. unfold bits_post in Hb2.
+  destruct (bits c s1 5) as [[v2 s2]| | |]; cbn [bind step_post]; auto; [|lia].
+  destruct Hb2 as (Hi2 & Hv2 & Hm2 & _). change (2 ^ 5) with 32 in Hv2.
+  pose proof (bits_ok c s2 4 Hc Hi2 ltac:(lia)) as Hb3. unfold bits_post in Hb3.
+  destruct (bits c s2 4) as [[v3 s3]| | |]; cbn [bind step_post]; auto; [|lia].
+  destruct Hb3 as (Hi3 & Hv3 & Hm3 & _). change (2 ^ 4) with 16 in Hv3.
+  unfold MAXLCODES, MAXDCODES.
+  destruct (Z.ltb_spec 286 (v1 + 257)); cbn [orb]; [lia|].
+  destruct (Z.ltb_spec 30 (v2 + 1)); [lia|].
+  set (nlen := v1 + 257) in *. set (ndist := v2 + 1) in *. set (ncode := v3 + 4) in *.
+  assert (Hl0 : lens_ok (repeat 0 316)) by (split; [reflexivity|apply Forall_repeat; lia]).
+  pose proof (read_cl_ok c Hc (Z.to_nat ncode) 0 s3 (repeat 0 316) Hi3 ltac:(lia) ltac:(lia) Hl0) as Hr1. unfold rl_post in Hr1.
+  destruct (read_cl (Z.to_nat ncode) 0 c s3 (repeat 0 316)) as [[s4 l4]| | |]; cbn [bind]; auto.
+  destruct Hr1 as (Hi4 & Hm4 & Hl4).
+  destruct (zero_cl_ok (Z.to_nat (19 - ncode)) ncode l4 ltac:(lia) ltac:(lia) Hl4) as (l5 & E5 & Hl5).
+  rewrite E5. cbn [bind].
+  destruct (construct_ok l5 0 19 ltac:(lia) ltac:(lia) ltac:(destruct Hl5; lia) (lens_at_range l5 0 19 Hl5)
+              (mkH (repeat 0 16) (repeat 0 286)) 286) as (err1 & h1 & E6 & Hh1 & Hs1 & _); try (cbn; lia).
+  { cbn [h_symbol]. apply Forall_repeat. lia. }
+  rewrite E6. cbn [bind].
+  destruct (err1 =? 0); cbn [negb]; [|lia].
+  pose proof (read_lengths_ok c h1 s4 Hc Hh1 320 s4 l5 0 nlen ndist Hi4 ltac:(lia) Hl5 ltac:(lia) ltac:(lia) ltac:(cbn; lia)) as Hr2.
+  unfold rl_post in Hr2.
+  destruct (read_lengths 320 c h1 s4 l5 0 nlen ndist) as [[s6 l6]| | |]; cbn [bind]; auto.
+  destruct Hr2 as (Hi6 & Hm6 & Hl6).
+  rewrite rd_ok by (destruct Hl6; lia). cbn [bind].
+  destruct (nth (Z.to_nat 256) l6 0 =? 0); [lia|].
+  cbn [h_symbol] in Hs1.
+  destruct (construct_ok l6 0 nlen ltac:(lia) ltac:(lia) ltac:(destruct Hl6; lia) (lens_at_range l6 0 nlen Hl6)
+              h1 286) as (err2 & h2 & E7 & Hh2 & Hs2 & _); try lia.
+  { apply Hh1. } { rewrite Hs1. rewrite len_repeat. lia. } { apply Hh1. }
+  rewrite E7. cbn [bind].
+  rewrite !rd_ok by (destruct Hh2 as (Hl2 & _); lia). cbn [bind].
+  match goal with |- context [if ?X then Err (-7) else _] => destruct X end; [lia|].
+  destruct (construct_ok l6 nlen ndist ltac:(lia) ltac:(lia) ltac:(destruct Hl6; lia) (lens_at_range l6 nlen ndist Hl6)
+              (mkH (repeat 0 16) (repeat 0 30)) 30) as (err3 & h3 & E8 & Hh3 & _); try (cbn; lia).
+  { cbn [h_symbol]. apply Forall_repeat. lia. }
+  rewrite E8. cbn [bind].
+  rewrite !rd_ok by (destruct Hh3 as (Hl3 & _); lia). cbn [bind].
+  match goal with |- context [if ?X then Err (-8) else _] => destruct X end; [lia|].
+  pose proof (codes_ok c h2 h3 286 s6 Hc Hh2 Hh3 Hi6) as Hcd. unfold step_post in *.
+  destruct (codes c h2 h3 s6) as [s7| | |]; auto. destruct Hcd as [Hi7 Hm7]. split; [exact Hi7|lia].
+Qed.
+
+Transparent decode bits copy_back codes construct read_cl zero_cl read_lengths.
+
+(* ---- sc_puff, all paths ------------------------------------------------------------------------------ *)
+Theorem puff_safe nil outcap destlen src sourcelen :
+  bytes src -> 0 <= sourcelen <= len src -> len src < BIG ->
+  (nil = false -> 0 <= destlen <= outcap /\ outcap < BIG) ->
+  puff_post nil destlen sourcelen (puff nil outcap destlen src sourcelen).
+Proof. apply puff_safe_frame; [exact fixed_ok|exact dynamic_ok]. Qed.
